@@ -214,6 +214,9 @@ func MapKeyStyle(style, i int64) string {
 		special = []string{""}
 	case 5:
 		special = []string{"q\"uote", "back\\slash", "new\nline", "tab\t", "<&>"}
+	case 6:
+		// a key that is also the name of a field of the element struct
+		special = []string{"f"}
 	}
 	if int(i) < len(special) {
 		return special[i]
